@@ -188,6 +188,7 @@ void Stats::absorb(const RunCfg &cfg, const sim::Result &r) {
   if (r.preemptions >= 1 && r.max_live_fibers >= 3) distinct("interleavings", r.ihash);
   for (auto h : r.states) distinct("sched_states", h);
   inc("preemptions", r.preemptions);
+  if (r.inregion_points) { inc("inregion_points", r.inregion_points); inc("inregion_preemptions", r.inregion_preemptions); inc("inregion_runs"); }
   max("peak_heap", r.peak_heap);
 }
 
@@ -631,6 +632,7 @@ int write_evidence(const std::string &prop, int tier, uint64_t master, const std
   o << "  \"decision_steps_total\": " << all.n["steps"] << ",\n  \"decision_steps_max_per_run\": " << all.mx["steps_max"] << ",\n  \"simulated_seconds\": " << all.n["sim_ns"] / 1e9 << ",\n";
   o << "  \"interleavings_distinct\": " << (all.d.count("interleavings") ? all.d["interleavings"].size() : 0) << ",\n  \"interleavings_measure\": \"distinct hashes of the sequence of (thread class, operation) pairs of a run, among runs with >= 3 live threads and >= 1 preemption\",\n";
   o << "  \"sched_states_distinct\": " << (all.d.count("sched_states") ? all.d["sched_states"].size() : 0) << ",\n";
+  o << "  \"decision_points_inside_unsynchronised_code\": " << all.n["inregion_points"] << ", \"thread_switches_inside_unsynchronised_code\": " << all.n["inregion_preemptions"] << ", \"runs_with_such_points\": " << all.n["inregion_runs"] << ",\n";
   o << "  \"preemptions_total\": " << all.n["preemptions"] << ",\n  \"peak_heap_max\": " << all.mx["peak_heap"] << ",\n";
   auto dump_prefix = [&](const char *name, const char *prefix, const std::map<std::string, uint64_t> &m) {
     o << "  \"" << name << "\": {";
